@@ -51,7 +51,7 @@ func genAction(r *gen.R) string {
 		}
 		return act("ok", jv(r))
 	case k < 11:
-		return act("resource", e(r.Pick([]string{"x.y", "svc.a", "bad..rid", "a?q=1", "*"})))
+		return act("resource", e(r.Pick([]string{"x.y", "svc.a", "bad..rid", "a?q=1", "*", "", "?", "?limit=5", "a.b?", "a.>", "a b"})))
 	case k < 16:
 		switch r.Intn(5) {
 		case 0, 1:
@@ -81,7 +81,7 @@ func genAction(r *gen.R) string {
 	case k < 40:
 		return act("collection", jv(r), e(r.Pick([]string{"", "", "q=1"})))
 	case k < 42:
-		return act("new", e(r.Pick([]string{"x.y", "bad..rid"})))
+		return act("new", e(r.Pick([]string{"x.y", "bad..rid", "", "?q=1", "a.b?x=1"})))
 	case k < 49:
 		return act("timeout", r.Pick([]string{"0", "100", "4500", "-1", "3000000"}))
 	case k < 56:
@@ -105,7 +105,7 @@ func genAction(r *gen.R) string {
 		if r.Bool() {
 			p = jv(r)
 		}
-		return act("custom", e(r.Pick([]string{"foo", "bar", "change", "delete", "a.b", "", "patch", "x*", "user joined", "tab\tbed", "q?", "ok-name", "foo"})), p)
+		return act("custom", e(r.Pick([]string{"foo", "bar", "change", "delete", "a.b", "", "patch", "x*", "user joined", "tab\tbed", "q?", "ok-name", "foo", "query", "add", "remove", "reaccess", "unsubscribe", "Query", "queries"})), p)
 	case k < 78:
 		return act("reaccess")
 	case k < 81:
